@@ -36,15 +36,16 @@ SER_REWRITES = [
     # R2: `mut ops` parameter -> immutable parameter + `let mut ops` (the input stays nameable in the contract)
     {'where': 'sig', 'rule': 'R2', 'find': 'mut ops: &[Op]', 'replace': 'ops_in: &[Op]'},
     {'rule': 'R2', 'find': 'use std::io::Write;', 'replace': ''},
+    {'rule': 'R1', 'find': 'Ok(data)', 'replace': 'proof { lemma_tail_end(ops@, ops0, n); } Ok(data)'},
     # R7 + R1: ghost bookkeeping (segmentation witnesses) declared next to the sink
     {'rule': 'R7', 'find': 'let mut data = Vec::new();',
-     'replace': 'let mut ops = ops_in; let mut data = Out::new(); let ghost ops0 = ops@; let ghost mut n: int = 0; '
+     'replace': 'let mut ops = ops_in; let mut data = Out::new(); let ghost ops0 = ops@; proof { lemma_tail_start(ops0); lemma_reads_start(ops0); } let ghost mut n: int = 0; '
                 'let ghost mut cuts: Seq<int> = seq![0int]; let ghost mut lasts: Seq<Point> = seq![origin()];'},
-    {'rule': 'R1', 'find': 'let mut advance = 1;', 'replace': 'let mut advance = 1; let ghost s0 = f.st(); proof { lemma_literals(); }'},
+    {'rule': 'R1', 'find': 'let mut advance = 1;', 'replace': 'let mut advance = 1; let ghost s0 = f.st(); proof { lemma_literals(); lemma_tail_idx(ops@, ops0, n); }'},
     {'rule': 'R1', 'find': 'ops = &ops[advance..];',
-     'replace': 'proof { lemma_tail(ops@, ops0, n, advance as int); let rec = f.st().recs.last(); let cnt = row_count(rec, lasts.last()); '
-                'assert(%s ==> advance == cnt); //@L window_advance\n '
-                'lemma_step(s0.recs, cuts, lasts, ops0, rec, cnt); '
+     'replace': 'proof { lemma_tail(ops@, ops0, n, advance as int); let rec = f.st().recs.last(); let cnt = row_count(rec, lasts.last());\n'
+                ' assert(%s ==> advance == cnt); //@L window_advance\n'
+                ' lemma_step(s0.recs, cuts, lasts, ops0, rec, cnt); '
                 'lasts = lasts.push(new_last_k(kw(rec.kw), rec.a, lasts.last())); '
                 'n = n + advance; cuts = cuts.push(n); } ops = &ops[advance..];' % H},
     # R2: deref coercion `&Name -> &str` written out
